@@ -412,3 +412,22 @@ def run(index, rep, tier):
                     rep.check(ok, "R15.8", f.qualname, "a yield that the filter cannot stop", fn_where(f, y), "%s: `%s` is dominated by a test on filter_fn" % (f.qualname, norm(y)[:40]),
                               "%s has a path to `%s` on which filter_fn was never consulted: on that path (a start node without children, a single-node tree) the item is delivered although the predicate rejects it, so the filtered and internal-only variants no longer yield exactly the passing subsequence" % (f.qualname, norm(y)[:40]))
         rep.floor("R15.8", "yields in filtered generators", 10, ny)
+
+    # ---- R15.9 a predicate is present when it is not None
+    with rep.section("R15.9"):
+        rep.rule("R15.9", "a predicate is present when it is not None: every iterator of Tree / Node decides whether a filter was given by comparing filter_fn with None, as the pre- and post-order iterators do - a callable whose truth value is False (a set-like predicate object that is empty) must still filter")
+        nt = 0
+        for m in (TM + "_tree", TM + "_node"):
+            for f in index.functions_in_module(m):
+                if "filter_fn" not in f.params:
+                    continue
+                g = cfg_of(f)
+                for t in g.nodes:
+                    if t.kind == "test" and isinstance(t.ast, ast.Name) and t.ast.id == "filter_fn":
+                        nt += 1
+                        rep.check(False, "R15.9", f.qualname, "filter_fn tested by truthiness", fn_where(f, t.stmt), "",
+                                  "%s decides with `if filter_fn:` whether a filter was given: a predicate object that is callable but falsy (an empty set subclass with __call__, any object defining __len__ / __bool__) is treated as absent and everything is yielded, while preorder_iter / postorder_iter, which test `filter_fn is None`, apply it" % f.qualname)
+                    elif t.kind == "test" and isinstance(t.ast, ast.Compare) and norm(t.ast.left) == "filter_fn" and is_none(t.ast.comparators[0]):
+                        nt += 1
+                        rep.ob("R15.9", fn_where(f, t.stmt), "%s: `%s`" % (f.qualname, norm(t.ast)), True)
+        rep.floor("R15.9", "presence tests of filter_fn", 8, nt)
